@@ -132,6 +132,12 @@ func Strip(v ssa.Value) ssa.Value {
 			v = x.X
 		case *ssa.ChangeInterface:
 			v = x.X
+		case *ssa.Phi:
+			if r := resolveTempPhi(x); r != nil {
+				v = r
+				continue
+			}
+			return v
 		case *ssa.UnOp:
 			if x.Op != token.MUL {
 				return v
@@ -586,3 +592,139 @@ func IsCellLoad(v ssa.Value) bool {
 
 // FieldOfAddr returns the struct field a FieldAddr selects.
 func FieldOfAddr(fa *ssa.FieldAddr) *types.Var { return fieldOfAddr(fa) }
+
+// ---- result temporaries of the normaliser (package norm)
+
+var tempPhiMemo = map[*ssa.Phi]ssa.Value{}
+var tempPhiBusy = map[*ssa.Phi]bool{}
+
+// normTempSuffix returns the "__n<k>" suffix of a variable the normaliser introduced for a result of an inlined helper
+// ("r0__n3"), or "".
+func normTempSuffix(name string) string {
+	i := strings.LastIndex(name, "__n")
+	if i <= 0 || !strings.HasPrefix(name, "r") {
+		return ""
+	}
+	for _, ch := range name[i+3:] {
+		if ch < '0' || ch > '9' {
+			return ""
+		}
+	}
+	for _, ch := range name[1:i] {
+		if ch < '0' || ch > '9' {
+			return ""
+		}
+	}
+	return name[i:]
+}
+
+func isZeroConst(v ssa.Value) bool {
+	k, ok := v.(*ssa.Const)
+	if !ok {
+		return false
+	}
+	if k.Value == nil {
+		return true
+	}
+	switch k.Value.String() {
+	case "0", "false", `""`:
+		return true
+	}
+	return false
+}
+
+// resolveTempPhi: an inlined helper's `return v, nil` / `return nil, err` exits meet in one block, where the normaliser's
+// result temporaries become phis. When the value temporary carries one and the same value v on every exit whose error is the
+// constant nil, a zero value on every other exit, and every use of it is dominated by the error temporary having been
+// compared equal to nil, the temporary IS v wherever it is used — exactly what the caller saw before the helper was
+// extracted (`x, err := step(); if err != nil { return }; use(x)`).
+func resolveTempPhi(phi *ssa.Phi) ssa.Value {
+	if r, ok := tempPhiMemo[phi]; ok {
+		return r
+	}
+	if tempPhiBusy[phi] {
+		return nil
+	}
+	tempPhiBusy[phi] = true
+	defer delete(tempPhiBusy, phi)
+	res := func() ssa.Value {
+		sfx := normTempSuffix(phi.Comment)
+		if sfx == "" {
+			return nil
+		}
+		var errPhi *ssa.Phi
+		for _, in := range phi.Block().Instrs {
+			p, ok := in.(*ssa.Phi)
+			if !ok {
+				break
+			}
+			if p != phi && normTempSuffix(p.Comment) == sfx && p.Type().String() == "error" {
+				errPhi = p
+			}
+		}
+		if errPhi == nil {
+			// a helper that answers "a value, or nil for nothing": one value on one exit, nil on the others, and every use
+			// behind a test that the temporary is not nil
+			var val ssa.Value
+			for _, e := range phi.Edges {
+				if NilConst(e) {
+					continue
+				}
+				if val != nil && val != e {
+					return nil
+				}
+				val = e
+			}
+			if val == nil || phi.Referrers() == nil {
+				return nil
+			}
+			fn := phi.Parent()
+			nonNil := CmpEdges(fn, Same(phi), NilConst, NE)
+			if len(nonNil) == 0 {
+				return nil
+			}
+			for _, r := range *phi.Referrers() {
+				if _, dbg := r.(*ssa.DebugRef); dbg {
+					continue
+				}
+				if bo, isCmp := r.(*ssa.BinOp); isCmp && (NilConst(bo.X) || NilConst(bo.Y)) {
+					continue
+				}
+				if g, _ := GuardedBy(fn, r, nonNil); !g {
+					return nil
+				}
+			}
+			return val
+		}
+		var val ssa.Value
+		for i, e := range phi.Edges {
+			if NilConst(errPhi.Edges[i]) {
+				if val != nil && val != e {
+					return nil
+				}
+				val = e
+			} else if !isZeroConst(e) {
+				return nil
+			}
+		}
+		if val == nil || phi.Referrers() == nil {
+			return nil
+		}
+		fn := phi.Parent()
+		okEdges := CmpEdges(fn, Same(errPhi), NilConst, EQ)
+		if len(okEdges) == 0 {
+			return nil
+		}
+		for _, r := range *phi.Referrers() {
+			if _, dbg := r.(*ssa.DebugRef); dbg {
+				continue
+			}
+			if g, _ := GuardedBy(fn, r, okEdges); !g {
+				return nil
+			}
+		}
+		return val
+	}()
+	tempPhiMemo[phi] = res
+	return res
+}
